@@ -20,7 +20,7 @@ func init() {
 }
 
 func ruleP8(p *Prog) *RuleResult {
-	res := newResult("P8", ruleDoc["P8"], 5)
+	res := newResult("P8", ruleDoc["P8"], 3)
 	fns := append([]*ssa.Function(nil), p.sourceFns()...)
 	sort.Slice(fns, func(i, j int) bool { return fname(fns[i]) < fname(fns[j]) })
 	// bases of a slice value: the MakeSlice instructions it may be (a re-slice of)
